@@ -319,6 +319,34 @@ theorem _root_.C17_cursor_text_roundtrip (n : Int) :
     have : ∀ d, d < 10 → ('0' ≤ digitChar d ∧ digitChar d ≤ '9') := by decide
     exact this d hd
 
+/-- **The statements the new definitions transcribe** (regenerated from `client.py` / `_api.py`
+on every run, local names abstracted): the line iterator `iterLines`/`chunkedLines` model
+(`buffer += text; *lines, buffer = buffer.split(sep)`, the rest flushed only after a clean end);
+`EventStream` (`streamLast`: `last_sequence` is set from the queued item right before the `yield`);
+the reconnect loop in source order (the cursor enters from `after_sequence`, is sent as
+`str(cursor)`, moves only after validation and before the event is queued with it; the counter is
+reset after an accepted status, incremented per transport error, compared with `>`); the status
+dispatch and the order of the `except` clauses `connect`/`onStatus` follow; the 204 of `serve`. -/
+theorem _root_.C17_reader_source_shape :
+    lineSource = "own-splitter" ∧
+    lineIterShape = ["params=1", "buffer=''", "for text in response.aiter_text()", "buffer+=text",
+      "*lines,buffer=buffer.split(sep)", "for line in lines: yield line", "if buffer: yield buffer"] ∧
+    consumerShape = ["init: self.<last> = <third argument>", "last_sequence: return self.<last>",
+      "item = await queue.get()", "_QueuedDone: return", "_QueuedError: raise item.error",
+      "self.<last> = item.sequence", "yield item.event"] ∧
+    loopShape = ["EventStream(_, _, after_sequence)", "cursor = after_sequence", "counter = 0",
+      "send after_sequence=str(cursor)", "raise_for_status", "counter = 0", "validate", "cursor = int(id)",
+      "queue (sequence=cursor)", "counter += 1", "if counter Gt max_reconnect_attempts: raise ConnectionError"] ∧
+    statusDispatch = [(404, "raise ValueError"), (204, "put _QueuedDone; return")] ∧
+    handlers = [("ValueError", "pass"), ("httpx.TimeoutException", "raise TimeoutError"),
+      ("httpx.RequestError,ConnectionError", "count"), ("asyncio.CancelledError", "put _QueuedDone"),
+      ("BaseException", "put _QueuedError")] ∧
+    serverDoneStatus = 204 ∧
+    (∀ st : CState, (onStatus st 404).2 = some .errNotFound ∧ (onStatus st serverDoneStatus).2 = some .done) := by
+  refine ⟨by decide, by decide, by decide, by decide, by decide, by decide, by decide, ?_⟩
+  intro st
+  exact ⟨by simp [onStatus], by simp [onStatus, serverDoneStatus]⟩
+
 /-! ## the pre-fix reader (F29) -/
 
 /-- the exactly-once clause for a reader that ends lines where `httpx`'s `aiter_lines` does -/
